@@ -1,0 +1,12 @@
+//go:build verif
+
+// Contracts for package Electiontrigger, read by /verif/govc (comment-only: no declarations, no effect on any build).
+
+package Electiontrigger
+
+//@ func (*TimerBasedElectionTrigger).CalcTimeout
+//@   props C19
+//@   mode bv
+//@   requires t.minTimeout > 0
+//@   ensures [value] result == Tspec(t.minTimeout, view)
+//@   ensures [positive] result > 0
